@@ -23,6 +23,9 @@ pub enum Cur {
     Handle(u8),
     /// the empty value
     Null,
+    /// one of the guards the thread has been holding on that container (possibly stale by now,
+    /// possibly the last owner of its value); the guard is consumed
+    Held(u8),
 }
 
 #[derive(Clone, Copy, Debug, PartialEq, Eq, Serialize, Deserialize)]
@@ -261,7 +264,7 @@ fn op_strategy(p: &Profile, ncont: u8, nthreads: u8) -> BoxedStrategy<Op> {
         Just(Nested::None).boxed()
     };
     let panic_at = if p.rcu_panic { prop_oneof![1 => Just(0u8), 2 => 1u8..4].boxed() } else { Just(0u8).boxed() };
-    let cur = prop_oneof![4 => Just(Cur::Loaded), 3 => any::<u8>().prop_map(Cur::Handle), 1 => Just(Cur::Null)];
+    let cur = prop_oneof![4 => Just(Cur::Loaded), 3 => any::<u8>().prop_map(Cur::Handle), 1 => Just(Cur::Null), 3 => any::<u8>().prop_map(Cur::Held)];
     let form = prop_oneof![Just(Form::Ref), Just(Form::Guard), Just(Form::GuardRef), Just(Form::Raw)];
     let mut alts: Vec<(u32, BoxedStrategy<Op>)> = Vec::new();
     let mut add = |w: u32, s: BoxedStrategy<Op>| {
